@@ -581,7 +581,7 @@ HDR_WRITER = "From C15 Require Import Model.\nDefinition run := writer_run.\nDef
 
 SUITES = [
     Suite("writer", gen_writer, run_writer, HDR_WRITER, coq_writer, oracle_writer, shrink_writer, nontrivial_writer,
-          {"quick": 2000, "thorough": 40000}, describe=describe_writer, shard=400),
+          {"quick": 1600, "thorough": 40000}, describe=describe_writer, shard=200),
 ]
 
 LEVEL_TEXT = ""
